@@ -17,6 +17,7 @@ import PotasscoVerif.Drv.OptAssign
 import PotasscoVerif.Drv.OptFormat
 import PotasscoVerif.Drv.Text
 import PotasscoVerif.Drv.Convert
+import PotasscoVerif.Drv.Asp
 open PotasscoVerif.Drv
 
 def dispatch (line : String) : String :=
@@ -43,6 +44,7 @@ def dispatch (line : String) : String :=
   | "tw" :: args => runTW args
   | "cv" :: args => runCV args
   | "so" :: args => runSO args
+  | "asp" :: args => runASP args
   | _ => "bad-component"
 
 partial def loop (h : IO.FS.Stream) (out : IO.FS.Stream) : IO Unit := do
